@@ -122,6 +122,47 @@ def make_zip(entries, variant):
     return b
 
 
+def loader_form(fn, form):
+    """the same user loader in the Python forms a caller may hand over"""
+    import functools
+    if form == 'lambda':
+        return lambda fname: fn(fname)
+    if form == 'partial':
+        return functools.partial(lambda tag, fname: fn(fname), 'tag')
+    if form == 'method':
+        class Holder(object):
+            def get(self, fname):
+                return fn(fname)
+        return Holder().get
+    if form == 'callable_object':
+        class Obj(object):
+            def __call__(self, fname):
+                return fn(fname)
+        return Obj()
+    if form == 'empty_dict_callable':
+        class Memo(dict):           # a memoising loader: a (still empty) dict that is callable
+            def __call__(self, fname):
+                return fn(fname)
+        return Memo()
+    if form == 'falsy_callable':
+        class Falsy(object):
+            def __bool__(self):
+                return False
+
+            def __call__(self, fname):
+                return fn(fname)
+        return Falsy()
+    if form == 'len0_callable':
+        class Len0(object):
+            def __len__(self):
+                return 0
+
+            def __call__(self, fname):
+                return fn(fname)
+        return Len0()
+    return fn
+
+
 def run_case(case):
     import collada
     from collada.common import DaeError, DaeBrokenRefError
@@ -172,22 +213,34 @@ def run_case(case):
             if ld['zip_filename'] is not None:
                 kw['zip_filename'] = ld['zip_filename']
             if ld['loader']:
-                kw['aux_file_loader'] = loader
+                kw['aux_file_loader'] = loader_form(loader, ld.get('loader_form', 'function'))
             if ld['ignore']:
                 kw['ignore'] = [DaeError]
             fobj = None
             code, data_id, member, imgs, snaph = 0, 0, None, [], None
             col = None
+            off = ld.get('offset') or 0
+            prefix = (b'HDR\x00' + bytes(range(256)) * 4)[:off]
             try:
                 if ld['src'] == 'path':
                     col = collada.Collada(target, **kw)
                 elif ld['src'] == 'abspath':
                     col = collada.Collada(os.path.join(cwd, target), **kw)
                 elif ld['src'] == 'file':
-                    fobj = open(target, 'rb')
+                    if off:
+                        # the document behind a header the caller has already consumed
+                        tmpname = '_offs_%d.bin' % li
+                        with open(tmpname, 'wb') as f:
+                            f.write(prefix + open(target, 'rb').read())
+                        fobj = open(tmpname, 'rb')
+                        fobj.seek(off)
+                    else:
+                        fobj = open(target, 'rb')
                     col = collada.Collada(fobj, **kw)
                 else:
-                    col = collada.Collada(io.BytesIO(open(target, 'rb').read()), **kw)
+                    stream = io.BytesIO(prefix + open(target, 'rb').read())
+                    stream.seek(off)
+                    col = collada.Collada(stream, **kw)
             except Exception as e:  # noqa
                 code = exc_code(e)
             finally:
@@ -199,6 +252,23 @@ def run_case(case):
                 member = col.filename if is_zip else None
                 snap = snapshot(col)
                 snaph = hashlib.sha1(json.dumps(snap, sort_keys=True).encode()).hexdigest()
+                # the loaded document is written somewhere else BEFORE its auxiliary data is first
+                # asked for: its own location (and so the data) must not change
+                wf = ld.get('write_first')
+                if wf:
+                    try:
+                        if wf == 'path':
+                            os.makedirs('export_c16/deep', exist_ok=True)
+                            col.write('export_c16/deep/out_%d.dae' % li)
+                        elif wf == 'abspath':
+                            os.makedirs('export_c16', exist_ok=True)
+                            col.write(os.path.join(cwd, 'export_c16', 'out_%d.dae' % li))
+                        else:
+                            col.write(io.BytesIO())
+                    except Exception as e:  # noqa
+                        if len(fails) < 4:
+                            fails.append({'clause': 'multi-step', 'site': 'write-before-data:%s' % type(e).__name__,
+                                          'what': 'write() of the loaded document raised %r' % (e,), 'load': li})
                 for im in col.images:
                     nerr = len(col.errors)
                     try:
